@@ -322,7 +322,11 @@ func schedules(t *testing.T, r *mc.Run) {
 		}
 		return "", ""
 	}
-	teardown := func(x *mc.Exec) { config.VerifStopVacuums(x.Vals["m"].(*model).acc) }
+	teardown := func(x *mc.Exec) {
+		m := x.Vals["m"].(*model)
+		config.VerifStopVacuums(m.acc)
+		m.close() // the model's scratch directory (one per execution)
+	}
 	txn := func(x *mc.Exec, m *model, name string, wait time.Duration) {
 		o := &txnObs{}
 		x.Vals[name] = o
